@@ -218,6 +218,8 @@ class PWLCalibration(keras.layers.Layer):
       raise ValueError("'input_keypoints' can't be None")
     if monotonicity is None:
       raise ValueError("'monotonicity' can't be None. Did you mean '0'?")
+    if convexity is None:
+      raise ValueError("'convexity' can't be None. Did you mean '0'?")
     if input_keypoints_type is None:
       raise ValueError("'input_keypoints_type' can't be None. It must be one "
                        "of 'fixed' or 'learned_interior'.")
